@@ -85,6 +85,8 @@ def main():
         for path in sorted(glob.glob(os.path.join(HERE, 'regress', prop, '*.json'))):
             with open(path) as f:
                 rcase = json.load(f)['case']
+            if 'traceback' in rcase:
+                continue
             n_reg += 1
             col.evaluations += 1
             for fl in mod.rejudge(rcase):
